@@ -1,5 +1,5 @@
 (* C28 — property theorems. Statements are pinned by props/C28.json. *)
-From PV Require Import Lib.Base C28.Model C28.Refuted C28.Abs C28.Refine C28.Visitors C28.Emit C28.Inv C28.Proofs.
+From PV Require Import Lib.Base C28.Model C28.Refuted C28.Abs C28.Refine C28.Visitors C28.Emit C28.Inv C28.Proofs C28.AsyncInv C28.AsyncProofs.
 Open Scope Z_scope.
 
 (* Schedules that confirm every Send before the next command / housekeeping pass / interface event
@@ -47,10 +47,29 @@ Proof. eexists. eexists. exact leiosnotify_twice. Qed.
 Theorem double_leiosfetch_refuted : exists evs i, exec Async cfgB 0 init [] evs = VViolation i 1 (LfBlockRequest 4) true.
 Proof. eexists. eexists. exact leiosfetch_twice. Qed.
 
-(* NOT PROVED (kept as the full statement): every violation of an Async schedule is in the known class,
-     forall c evs i p m u, exec Async c 0 init [] evs = VViolation i p m u -> u = true.
-   It is checked by the differential run and the harness oracle only (a violation outside the known
-   class gets another ORACLE_FAIL key and fails the check). *)
+(* Arbitrarily delayed confirmations (Async schedules: Sent events at any later time but in per-peer FIFO
+   order, conformant responders answering only confirmed requests, errors, disconnects, re-connects and
+   re-includes at any time): EVERY message the initiator emits that the specification does not permit lies
+   in the known class - an emission of the same protocol to the same peer, made in an earlier step, was
+   still waiting for its Sent confirmation when the step began (flag [true] of the verdict).  Schedules that
+   break an environment assumption end in VEnv at that point, so the statement covers every well-formed prefix. *)
+Theorem initiator_violation_only_in_known_class : forall c evs i p m u,
+  exec Async c 0 init [] evs = VViolation i p m u -> u = true.
+Proof. intros c evs i p m u H. exact (async_known_class c evs 0 init [] SInvA_init i p m u H). Qed.
+
+(* the same from every state that satisfies the asynchronous invariant *)
+Theorem initiator_violation_only_in_known_class_step : forall c evs i st e, SInvA st e ->
+  forall j p m u, exec Async c i st e evs = VViolation j p m u -> u = true.
+Proof. exact async_known_class. Qed.
+
+(* contrapositive reading: outside the known class the initiator is conformant *)
+Theorem initiator_conformant_outside_known_class : forall c evs,
+  (forall i p m, exec Async c 0 init [] evs <> VViolation i p m true) -> is_violation (exec Async c 0 init [] evs) = false.
+Proof.
+  intros c evs H. pose proof (initiator_violation_only_in_known_class c evs) as K.
+  destruct (exec Async c 0 init [] evs) as [| | |i p m u]; try reflexivity.
+  exfalso. rewrite (K i p m u eq_refl) in H. exact (H i p m eq_refl).
+Qed.
 
 (* non-vacuity: a sync schedule that is executed to its end, through all emitters *)
 Example sync_schedule_runs :
@@ -59,4 +78,15 @@ Example sync_schedule_runs :
      EHousekeeping [] []; ERecv 1 [KaResponse 65535; PsPeers [2; 3]; LnOffer 4; LfBlock 5]; EHousekeeping [] [];
      ERecv 1 [CsIntersectFound 2; BfStartBatch]; EContinueSync 1; ERecv 1 [CsRollForward 7; BfBlock 1; BfBatchDone];
      EDemote 1; EHousekeeping [] []; EError 1; EBan 1; EDisconnected 1; EHousekeeping [] []] = VFine.
+Proof. vm_compute. reflexivity. Qed.
+
+(* non-vacuity: an async schedule with delayed confirmations, a re-include while connected and tag commands,
+   executed to its end without any violation *)
+Example async_schedule_runs :
+  exec Async cfgB 0 init []
+    [EInclude 1; EStartSync 1; EHousekeeping [] []; EConnected 1; ESent 1 (HsPropose [(13, 764824073)]); ERecv 1 [HsAccept 15 1];
+     EHousekeeping [] []; ESent 1 (KaKeepAlive 65535); ERecv 1 [KaResponse 65535]; ESent 1 (PsRequest 100);
+     EContinueSync 1; ESent 1 (CsFindIntersect 1); ESent 1 LnRequestNext; ERecv 1 [CsIntersectFound 2; LnOffer 3];
+     EContinueSync 1; EInclude 1; ESent 1 CsRequestNext; ERecv 1 [CsAwaitReply]; EContinueSync 1; EBan 1;
+     ERecv 1 [CsRollForward 5]; EContinueSync 1; ESent 1 CsRequestNext; EError 1; EDemote 1; EDisconnected 1; EHousekeeping [] []] = VFine.
 Proof. vm_compute. reflexivity. Qed.
